@@ -188,7 +188,13 @@ def cadence(ctx):
     history = []
     for attempt, scale in enumerate([1, 2, 4]):
         vs, runs = cadence_once(ctx, scale)
-        misses = sum(len(v["misses"]) + len(v["absent"]) + len(v["tail"]) for v in vs)
+        misses = sum(len(v["misses"]) + len(v["absent"]) + len(v["tail"]) + len(v["stalls"]) for v in vs)
+        if misses == 0:
+            # the scripted error bursts must really have happened (and been survived)
+            for v in vs:
+                if v["errors"] and not ({2, 3} <= set(v["bursts"].get("freespace", [])) and
+                                        11 in v["bursts"].get("reposize", [])):
+                    raise vcheck.Infra("cadence run did not produce the scripted error bursts: %s" % json.dumps(v["bursts"]))
         late = sum(len(v["late"]) for v in vs)
         early = sum(len(v["early"]) for v in vs)
         n = sum(v["n"] for v in vs)
@@ -203,13 +209,13 @@ def cadence(ctx):
             return
     # a miss in three consecutive runs with doubled durations cannot be scheduling delay alone
     ctx.extra["cadence_runs"] = history
-    v = [x for x in vs if x["misses"] or x["absent"] or x["tail"]][0]
+    v = [x for x in vs if x["misses"] or x["absent"] or x["tail"] or x["stalls"]][0]
     run = [x for x in runs if x["id"] == v["id"]][0]
-    nm = (v["absent"] + v["tail"] + [m[0] for m in v["misses"]])[0]
+    nm = (v["absent"] + v["tail"] + [m[0] for m in v["stalls"]] + [m[0] for m in v["misses"]])[0]
     ctx.violation("C09:Cadence:%s" % ("informer" if nm != "ping" else "ping"),
-                  "metric %s not republished before the previous one expired (absent=%s, expired at end=%s, late "
-                  "republications=%d), in 3 consecutive runs with doubled durations (%s)" % (
-                      nm, v["absent"], v["tail"], len(v["misses"]), json.dumps(history)),
+                  "metric %s not republished before the previous one expired (absent=%s, expired at end=%s, stalled after a publish "
+                  "error=%s, late republications=%d), in 3 consecutive runs with doubled durations (%s)" % (
+                      nm, v["absent"], v["tail"], v["stalls"], len(v["misses"]), json.dumps(history)),
                   {"cadence": True, "run": run, "verdict": v, "history": history})
 
 
@@ -236,7 +242,8 @@ def run(ctx):
         "where >= 6 metrics are stored the accrual detector's verdict is read off the observation (not predicted)",
         "ring window modelled as a bounded queue; alert order within one check is left free (map iteration)",
         "cadence: two informers (TTL 400 and 600 ms) and the ping; ping publish errors are not injected (pushPingMetrics has zero margin after a lost ping: "
-        "MonitorCadence MaxErrPing = 0); informer publish errors are isolated (every third attempt)"]
+        "MonitorCadence MaxErrPing = 0); informer publish errors are scripted by attempt number (isolated, bursts of 2, 3 and 11 consecutive failures); "
+        "after more than one consecutive error the clause only demands that republishing resumes (Resume/Stalls)"]
     quick = ctx.quick()
     # SPEC
     skip_spec = bool(os.environ.get("VERIF_C09_SKIP_SPEC"))     # development aid (mutant runs); never set by bin/check
@@ -259,7 +266,10 @@ def run(ctx):
                # reachability goals on the as-coded model: one peer, two expired names, full alert cycle of both
                refute(ctx, "MonitorMC_goal_cp.cfg", "NeverTwoNamesCycleCP", "goal:two_names:checkpeers"),
                refute(ctx, "MonitorMC_goal_all.cfg", "NeverTwoNamesCycleAll", "goal:two_names:checkall"),
-               refute(ctx, "MonitorMC_goal_watch.cfg", "NeverTwoNamesCycleWatch", "goal:two_names:watch")]
+               refute(ctx, "MonitorMC_goal_watch.cfg", "NeverTwoNamesCycleWatch", "goal:two_names:watch"),
+               # a far-expiring metric superseded by an earlier-expiring one (direct and over pubsub)
+               refute(ctx, "MonitorMC_goal_farpast.cfg", "NeverFarThenPastAlert", "goal:far_then_past"),
+               refute(ctx, "MonitorMC_goal_farshort.cfg", "NeverFarThenShortAlert", "goal:far_then_short:publish")]
     # GEN
     n_small, n_big = (160, 60) if quick else (2400, 600)
     scripts += simulate(ctx, "MonitorMC_sim.cfg", n_small, 28, ctx.seed, "sim:w3")
@@ -269,7 +279,7 @@ def run(ctx):
     for i, sc in enumerate(scripts):
         sc["id"] = i + 1
         sc["accn"] = ACCN
-        sc["publish"] = rng.random() < 0.35
+        sc["publish"] = True if sc["src"].endswith(":publish") else rng.random() < 0.35
     inp = os.path.join(ctx.work, "c09_scripts.ndjson")
     with open(inp, "w") as f:
         for sc in scripts:
